@@ -20,7 +20,7 @@ def bounds(tier):
     n = 20 if tier == "thorough" else 18
     return {
         "H20a": "fully symbolic buffers: SD header 12..%d bytes, SD entry 16..18 bytes with symbolic option count, SD option 3..%d bytes and typed exact-size payloads, SOME/IP message 16..24 bytes" % (n, 9 if tier == "thorough" else 8),
-        "H20t": "4 SD templates incl. a non-canonical one (non-zero reserved bytes, configuration tail garbage, unknown option type, unknown protocol number, unreferenced option, index with zero count) with windows of %s symbolic bytes at every position" % ("1..4" if tier == "thorough" else "1 (every position) / 4 (every 4th)"),
+        "H20t": "4 SD templates incl. a non-canonical one (non-zero reserved bytes, configuration tail garbage, unknown option type, unknown protocol number, unreferenced option, index with zero count) with windows of %s symbolic bytes at every position" % ("1, 2 (every position) / 3, 4 (every 2nd)" if tier == "thorough" else "1 (every position) / 4 (every 4th)"),
     }
 
 
